@@ -1,5 +1,6 @@
 import TextxVerif.Proofs.MultStore
 import TextxVerif.Proofs.MultAccepts
+import TextxVerif.Proofs.TxMult
 /-!
 # C02 — assignments never lose, duplicate or reorder matched values
 
@@ -302,3 +303,82 @@ example : (Rule.mk false (.asgn 0 .plain)).root = .seq [.asgn 0 .plain] ∧
     (Rule.mk false (.rep true (.asgn 0 .plain))).root = .rep true (.asgn 0 .plain) := ⟨rfl, rfl, rfl, rfl⟩
 
 end Mult
+
+/-! ## Bridge to the compiler mirror of C01 (`Tx.compile`, tied to `TextXVisitor` on every C01 run)
+
+`Mult.walk` and `Tx.walk true` are two independently written mirrors of `_update_attr_multiplicities`
+(attributes numbered / by name, rejection flag / exception).  `Tx.Bridge.toBody idx` maps a textX
+expression to the `Mult.Body` it stands for (`idx`: any injective numbering of attribute names). -/
+namespace Tx
+open Tx.Bridge
+
+/-- **The two mirrors of the multiplicity walk agree.**  From related states (`WR`: same branch set, same
+multiplicities, nothing rejected), whenever `Tx.walk true` does not raise, every attribute ends with the
+multiplicity `Mult.walk` computes on the translated body — for every expression, inherited `mult` and state. -/
+theorem C02_walk_bridge (idx : String → Nat) (hinj : ∀ a b, idx a = idx b → a = b) (e : Expr) (m : Tx.Mult)
+    (st st' : WalkSt) (s : Mult.St) (hr : WR idx st s) (h : walk true e m st = .ok st') :
+    WR idx st' (Mult.walk (toM m) (toBody idx e) s) ∧
+    ∀ b ∈ st'.attrs, b.mult.many = ((Mult.walk (toM m) (toBody idx e) s).mult (idx b.name)).isMany := by
+  have hw := walk_sim idx hinj e m st st' s hr h
+  refine ⟨hw, fun b hb => ?_⟩
+  rw [← hw.mult b hb, toM_many]
+
+/-- …and so do the whole first passes: the class `Tx.ruleClass true` builds for a rule has exactly the
+multiplicities `Mult.infer` computes for the translated body. -/
+theorem C02_ruleClass_bridge (idx : String → Nat) (hinj : ∀ a b, idx a = idx b → a = b) (r : Rule) (cls : Cls)
+    (h : ruleClass true r = .ok cls) (b : Attr) (hb : b ∈ cls.attrs) :
+    toM b.mult = Mult.multOf (toBody idx r.body) (idx b.name) :=
+  ruleClass_mult idx hinj r cls h b hb
+
+/-- **Static half on the compiler mirror**: an attribute of the class built for rule `r` is a list exactly
+when the count of the documented semantics (`Sem.count`, on the grammar as written) is "many". -/
+theorem C02_ruleClass_list_iff (r : Rule) (cls : Cls) (h : ruleClass true r = .ok cls) (b : Attr) (hb : b ∈ cls.attrs) :
+    b.mult.many = true ↔ Sem.count b.name r.body = .many :=
+  ruleClass_list_iff r cls h b hb
+
+/-- **Static half on the compiled metamodel**: for every grammar `Tx.compile` accepts and every rule of it, the
+metamodel has a class of that name and each attribute of it is a list exactly when one object can collect more
+than one value for it (count "many" over the rule body as written). -/
+theorem C02_compile_list_iff (g : Gram) (c : Compiled) (hc : compile g = .ok c) (r : Rule) (hr : r ∈ g.rules) :
+    ∃ cls ∈ c.classes, cls.name = r.name ∧
+      ∀ b ∈ cls.attrs, (b.mult.many = true ↔ Sem.count b.name r.body = .many) :=
+  compile_list_iff g c hc r hr
+
+/-- **The rule root of `Mult` is the root the compiler mirror builds**: `Mult.Rule.root` wraps the translated
+body exactly when `Tx.Rule.wrapped` (compared with the real parser model on every C01 run) says so. -/
+theorem C02_rule_root_bridge (idx : String → Nat) (r : Rule) :
+    Mult.Rule.root ⟨r.hasParams, toBody idx r.body⟩ =
+      if r.wrapped then .seq [toBody idx r.body] else toBody idx r.body := by
+  unfold Mult.Rule.root Rule.wrapped
+  cases hb : r.body with
+  | rep op x sep eol sup => cases op <;> cases hp : r.hasParams <;> simp [toBody, Mult.Body.isAsgn, Mult.Body.isSeq]
+  | _ => cases hp : r.hasParams <;> simp [toBody, Mult.Body.isAsgn, Mult.Body.isSeq]
+
+/-- `Model: a=INT (a=INT | b=INT);` -/
+def bridgeWitness : Rule :=
+  { name := "Model", body := .seq [.asgn "a" .plain (.ref "INT" false) none false false,
+      .alt [.asgn "a" .plain (.ref "INT" false) none false false,
+            .asgn "b" .plain (.ref "INT" false) none false false] false] false }
+
+/-- does some attribute of the class the *pinned* walk builds disagree with the count? -/
+def pinnedDisagrees (r : Rule) : Bool :=
+  match ruleClass false r with
+  | .ok cls => cls.attrs.any fun b => b.mult.many != (Sem.count b.name r.body == .many)
+  | .error _ => false
+
+/-- The pinned walk (`Tx.walk false`: an ordered choice resets the branch set) does not satisfy
+`C02_ruleClass_list_iff`: on `a=INT (a=INT | b=INT)` it leaves `a` single-valued although the count is "many". -/
+theorem C02_tx_pinned_walk_false : pinnedDisagrees bridgeWitness = true := by decide
+
+/-- non-vacuity: the witness rule is accepted by the first pass of the code as it is, `a` is a list there;
+`code` is an injective numbering; the related start states exist -/
+example : (match ruleClass true bridgeWitness with
+    | .ok cls => cls.attrs.map fun b => (b.name, b.mult.many)
+    | .error _ => []) = [("a", true), ("b", false)] := by decide
+example : ∀ a b, code a = code b → a = b := code_inj
+example (idx : String → Nat) : WR idx { attrs := [], set := [] } { seen := [], mult := fun _ => .one, rej := false } :=
+  ⟨by simp, by simp, rfl⟩
+example : (match compile { rules := [bridgeWitness] } with | .ok _ => true | .error _ => false) = true := by
+  decide +kernel
+
+end Tx
